@@ -1503,7 +1503,7 @@ func targetedSimultaneousStartSameID(c *core.Ctx, rounds int) {
 		c.Eval(1)
 		if won != 1 || invoked != 1 {
 			c.Violate("not-delivered", "simultaneous-start-same-id", map[string]interface{}{"round": k,
-				"problem": fmt.Sprintf("%d goroutines started one id at the same instant: %d Start calls returned nil (exactly one may); after the response, handlers that got it: %d (100s = invocations on a refused Start)", g, won, invoked),
+				"problem":     fmt.Sprintf("%d goroutines started one id at the same instant: %d Start calls returned nil (exactly one may); after the response, handlers that got it: %d (100s = invocations on a refused Start)", g, won, invoked),
 				"ledger_tail": tailOf(r.describe(), 14)})
 			_ = r.close()
 
@@ -1568,7 +1568,7 @@ func targetedResponsesDuringRetransmittingTick(c *core.Ctx, variant int) {
 	_ = r.close()
 	if atomic.LoadInt32(&once) == 1 && got != len(resps) {
 		c.Violate("not-delivered", "not-delivered:responses-during-retransmitting-tick", map[string]interface{}{"options": o.String(),
-			"problem": fmt.Sprintf("%d requests fell due in one tick; while the first was being retransmitted the responses to the other %d arrived; %d of them reached their handlers", n, len(resps), got),
+			"problem":     fmt.Sprintf("%d requests fell due in one tick; while the first was being retransmitted the responses to the other %d arrived; %d of them reached their handlers", n, len(resps), got),
 			"ledger_tail": tailOf(r.describe(), 30)})
 
 		return
